@@ -138,6 +138,14 @@ func checkPairing(fn *ssa.Function, sp pairingSpec) []pairingResult {
 				}
 			}
 		}
+		// a release gives back a slot that was taken: it must be control-dependent on the acquire
+		// having succeeded (a request that skipped the acquire must not release somebody else's slot)
+		eng.Instrs(fn, func(ins ssa.Instruction) {
+			if isAnyRel(ins) && !eng.GuardedByBool(ins, func(v ssa.Value) bool { return v == val }, true) {
+				ok = false
+				why = append(why, "a release of the limiter is reachable without its acquire having succeeded (e.g. a request class that skips TryAcquire still runs the deferred Release: it frees the slot of another, unfinished request)")
+			}
+		})
 		// exactly one release per acquire: no non-deferred release, no second deferred release after one
 		eng.Instrs(fn, func(ins ssa.Instruction) {
 			if isAnyRel(ins) && !isDeferRel(ins) {
@@ -216,7 +224,7 @@ func c05(c *eng.Ctx) {
 	c.Rule("R1w", "wrapper forwarding: every Release of a delegating FlowControl wrapper calls its delegate's Release exactly once on every path; meter start is control-dependent on a successful delegate acquire and meter end runs exactly once per Release", 3)
 	c.Rule("R2", "resize keeps the counter: the in-flight bucket embedded in flowControl is stored only by constructors; Resize forwards the new size to the bucket's own Resize", 2)
 	c.Rule("R3", "delegate stability: a FlowControl wrapper handed to requests by UpstreamLimiter.Load/GetOrDefault never has its delegate re-stored once set (a store is allowed only on the delegate==nil edge or in a constructor)", 2)
-	c.Rule("R4", "per (cluster, schema) isolation: limiter caches/limiters are constructed only at their owning sites; the single shared default limiter is exempt (unlimited)", 4)
+	c.Rule("R4", "per (cluster, schema) isolation: limiter caches/limiters are constructed only at their owning sites; the single shared default limiter is exempt (unlimited); the per-schema table is keyed by the schema name verbatim", 8)
 	c.Rule("R5", "limit wiring: the size given to the in-flight bucket derives from the schema's max (constructor and resize)", 3)
 
 	// ---- R1: callers outside the flow-control packages
@@ -491,6 +499,7 @@ func c05(c *eng.Ctx) {
 			// receiver map is the limiter's own field
 		}
 	}
+	checkSchemaTableKeys(c, "R4")
 	// the shared default limiter is exempt
 	if ini := c.W.Func(pkgFC, "init"); ini != nil {
 		for _, ci := range eng.CallsTo(ini, pkgFC+".NewFlowControl") {
@@ -518,6 +527,35 @@ func c05(c *eng.Ctx) {
 				ok = exempt && !limited
 			}
 			c.Check("R4", ini, "shared default limiter is exempt", ci.Pos(), ok, "the only limiter shared by all clusters must be unlimited, otherwise one cluster's load rejects another's requests")
+		}
+	}
+}
+
+// checkSchemaTableKeys: the per-schema limiter table (FlowControlMap) is keyed by the schema
+// name verbatim, so two schemas never share a limiter. Shared by C05 (isolation) and C06.
+func checkSchemaTableKeys(c *eng.Ctx, rule string) {
+	if fm := c.W.Named(pkgFCRemote, "FlowControlMap"); fm != nil {
+		n := 0
+		for _, mn := range []string{"Load", "Store", "Delete"} {
+			m := c.W.DeclaredMethod(fm, mn)
+			if m == nil || m.Blocks == nil {
+				continue
+			}
+			for _, ci := range eng.Calls(m) {
+				if eng.RecvTypeName(ci) != "sync.Map" || len(eng.Args(ci)) == 0 {
+					continue
+				}
+				n++
+				key := eng.Args(ci)[0]
+				if mi, isMI := key.(*ssa.MakeInterface); isMI {
+					key = mi.X
+				}
+				c.Check(rule, m, "schema table keyed by the name verbatim ("+mn+"→"+eng.CalleeObj(ci).Name()+")", ci.Pos(), key == ssa.Value(m.Params[1]),
+					"the key of the per-schema limiter table must be the schema name itself; a transformed key (lower-casing, trimming) lets two distinct schema names share one limiter, so exhausting or resizing one affects the other")
+			}
+		}
+		if n < 3 {
+			c.Fail(rule, nil, "schema table keyed by the name verbatim", 0, "FlowControlMap accessors not found")
 		}
 	}
 }
@@ -645,6 +683,11 @@ func badOther(l, m *L) {
 	if !l.TryAcquire() { return }
 	defer m.Release()
 }
+func badSkipAcquire(l *L, long bool) {
+	if !long && !l.TryAcquire() { return }
+	defer l.Release()
+	work()
+}
 func badWorkBefore(l *L) {
 	if !l.TryAcquire() { return }
 	work()
@@ -665,7 +708,7 @@ func c05Fixtures(c *eng.Ctx) {
 			return eng.IsCall(ci, "fx.logf")
 		},
 	}
-	for name, want := range map[string]bool{"good": true, "goodSwitch": true, "badLeak": false, "badNoDefer": false, "badDouble": false, "badRefusedRelease": false, "badOther": false, "badWorkBefore": false} {
+	for name, want := range map[string]bool{"good": true, "goodSwitch": true, "badLeak": false, "badNoDefer": false, "badDouble": false, "badRefusedRelease": false, "badOther": false, "badWorkBefore": false, "badSkipAcquire": false} {
 		rs := checkPairing(p.Func(name), sp)
 		got := len(rs) == 1 && rs[0].ok
 		c.Fixture("C05.pairing/"+name, fmt.Sprint(want), fmt.Sprint(got))
